@@ -7,3 +7,8 @@ mod bit_writer;
 pub(crate) use bit_reader::*;
 pub(crate) use bit_reader_reverse::*;
 pub(crate) use bit_writer::*;
+
+#[cfg(feature = "verif_hooks")]
+pub use bit_reader::BitReader as VerifBitReader;
+#[cfg(feature = "verif_hooks")]
+pub use bit_reader_reverse::BitReaderReversed as VerifBitReaderReversed;
